@@ -27,6 +27,8 @@ type move struct {
 	Lost bool   `json:"lost"`
 	T    int    `json:"t"`
 	Res  string `json:"res"`
+	Fw   string `json:"fw"` // crecv: what the end-host forwarder attached (none | inside | before | after | bad)
+	Tr   string `json:"tr"` // net (first move): transport the schedule was generated for
 }
 
 // record layout for NtpExchangeTrace.tla
@@ -61,6 +63,11 @@ type rec struct {
 	// diagnostics: time from handing the datagram over to the evidence of the reaction (us), wait before, polls
 	Dur, Stl, Pol int
 	Why           string `json:"why"` // ignored: nocall | closed | unread
+	// what the end host attached to the delivered response (SCION end-to-end option 253)
+	Fw  string `json:"fw"`  // class of this delivery: none | inside | before | after | bad
+	Pfw string `json:"pfw"` // class of the delivery of the previously accepted response (whose receive time an interleaved result uses)
+	Fwv string `json:"fwv"` // concrete variant (diagnostics)
+	T3s bool   `json:"t3s"` // accept: t3 is the forwarder's stamp of this delivery
 }
 
 const clampNs = 2_000_000_000
@@ -89,10 +96,17 @@ type delivery struct {
 }
 
 type inflight struct {
-	b   []byte
-	dst netip.AddrPort
-	h   int
+	b    []byte
+	dst  netip.AddrPort
+	h    int
+	ntp  []byte // bare NTP response and the addressing it is framed with
+	meta *Meta
 }
+
+// real one-way delay of the scripted network in behaviours whose end host has a
+// forwarder: a receive time that is not this exchange's is then off by tens of
+// milliseconds, far beyond anything scheduling can produce
+func netDelay(rng *rand.Rand) { time.Sleep(time.Duration(8000+rng.Intn(4000)) * time.Microsecond) }
 
 // slack for comparing timestamps taken at different points of the same clock
 // (kernel software timestamps and time.Now() are both CLOCK_REALTIME)
@@ -124,8 +138,13 @@ func TestC03(t *testing.T) {
 	naccept, nbeh := 0, 0
 	for bi, sc := range scheds {
 		kind := "ip"
-		if os.Getenv("VERIF_TRANSPORT") == "scion" || (os.Getenv("VERIF_TRANSPORT") == "" && bi%2 == 1) {
+		if len(sc) > 0 && sc[0].A == "net" {
+			kind = sc[0].Tr // the schedule says which network it was generated for
+		} else if bi%2 == 1 {
 			kind = "scion"
+		}
+		if tr := os.Getenv("VERIF_TRANSPORT"); tr != "" {
+			kind = tr
 		}
 		n, err := NewNetWith(kind, useFilter(bi))
 		if err != nil {
@@ -190,6 +209,15 @@ func runSchedule(t *testing.T, n *Net, sc []move, bi int, rng *rand.Rand, out *v
 	naccept := 0
 	flt := n.Filter != nil
 	n.SetTheta(0)
+	// the end host has a forwarder (SCION transport and a schedule that uses it)
+	fwd := false
+	for _, mv := range sc {
+		fwd = fwd || (n.T.Name() == "scion" && mv.A == "crecv" && mv.Fw != "" && mv.Fw != "none")
+	}
+	if fwd {
+		n.Timeout = 220 * time.Millisecond
+	}
+	lastFw := "none" // class of the delivery of the last accepted response
 
 	// waitArrival: next request datagram of the client (starting a call if needed)
 	waitArrival := func() *attempt {
@@ -226,8 +254,13 @@ func runSchedule(t *testing.T, n *Net, sc []move, bi int, rng *rand.Rand, out *v
 	}
 
 	for _, mv := range sc {
-		pause(rng)
+		if fwd && (mv.A == "srecv" || mv.A == "crecv") {
+			netDelay(rng)
+		} else {
+			pause(rng)
+		}
 		switch mv.A {
+		case "net":
 		case "send":
 			cur = waitArrival()
 			if cur == nil {
@@ -252,7 +285,7 @@ func runSchedule(t *testing.T, n *Net, sc []move, bi int, rng *rand.Rand, out *v
 					reqs[[2]int{mv.M.Ex, 1}] = &inflight{b: q.b, dst: q.dst}
 				}
 			} else if r := resps[[2]int{mv.M.H, 0}]; r != nil {
-				resps[[2]int{mv.M.H, 1}] = &inflight{b: r.b, dst: r.dst, h: r.h}
+				resps[[2]int{mv.M.H, 1}] = &inflight{b: r.b, dst: r.dst, h: r.h, ntp: r.ntp, meta: r.meta}
 			}
 		case "drop":
 			if mv.M.Kind == "req" {
@@ -282,7 +315,7 @@ func runSchedule(t *testing.T, n *Net, sc []move, bi int, rng *rand.Rand, out *v
 			if err := n.ServerTx(h, mv.Lost); err != nil {
 				t.Fatalf("server tx failed: %v", err)
 			}
-			resps[[2]int{mv.H, 0}] = &inflight{b: h.Resp, dst: h.Dst, h: mv.H}
+			resps[[2]int{mv.H, 0}] = &inflight{b: h.Resp, dst: h.Dst, h: mv.H, ntp: h.NTP, meta: h.Meta}
 		case "timeout":
 			// the client's call runs into its deadline; remaining attempts of the
 			// call fail at once. Wait for the call to return and forget its leftovers.
@@ -298,7 +331,29 @@ func runSchedule(t *testing.T, n *Net, sc []move, bi int, rng *rand.Rand, out *v
 				continue
 			}
 			delete(resps, [2]int{mv.M.H, mv.M.Copy})
-			re, err := n.Watch(r.dst, func() (time.Time, error) { return n.Deliver(r.b, r.dst) })
+			// the end host: over SCION the forwarder may append its stamp (class from the schedule)
+			fw, fwv := "none", ""
+			var stamp time.Time
+			stamped := false
+			send := func() (time.Time, error) { return n.Deliver(r.b, r.dst) }
+			if n.T.Name() == "scion" && mv.Fw != "" && mv.Fw != "none" {
+				fw = mv.Fw
+				before := time.Now()
+				if cur != nil {
+					before = cur.prevEv
+				}
+				send = func() (time.Time, error) {
+					var opt []byte
+					opt, stamp, stamped, fwv = fwdOption(fw, before, rng)
+					del, err := n.Deliver(n.T.WrapFwd(r.ntp, r.meta, opt), r.dst)
+					if fw == "inside" {
+						// the datagram reached the client's end host when the forwarder stamped it
+						del = stamp
+					}
+					return del, err
+				}
+			}
+			re, err := n.Watch(r.dst, send)
 			if err != nil {
 				t.Fatalf("delivery to the client: %v", err)
 			}
@@ -310,10 +365,14 @@ func runSchedule(t *testing.T, n *Net, sc []move, bi int, rng *rand.Rand, out *v
 			}
 			dels = append(dels, d)
 			rc := rec{Ev: "recv", Ex: exOf(cur), Want: mv.Res, Got: re.Got, Beh: bi, Flt: flt, Fin: re.Final, Lg: re.Log, Lgx: true,
-				Dur: int(re.Seen.Sub(re.Del) / time.Microsecond), Stl: int(re.Settle / time.Microsecond), Pol: re.Polls, Why: re.Why}
-			if re.Got == "ok" && mine && fillAccept(&rc, n, cur, atts, dels, r, re) {
+				Dur: int(re.Seen.Sub(re.Del) / time.Microsecond), Stl: int(re.Settle / time.Microsecond), Pol: re.Polls, Why: re.Why,
+				Fw: fw, Pfw: lastFw, Fwv: fwv}
+			if re.Got == "ok" && mine && fillAccept(&rc, n, cur, atts, dels, r, re, stamp, stamped) {
 				rc.Ev = "accept"
 				naccept++
+			}
+			if re.Got == "ok" && mine {
+				lastFw = fw
 			}
 			out.Emit(rc)
 			if re.Got == "ok" || re.Got == "error" || re.Got == "panic" {
@@ -365,7 +424,7 @@ func between(x, lo, hi time.Time) bool { return !x.Before(lo) && !x.After(hi) }
 // that request at the harness; t3 between the harness handing a datagram to the
 // kernel and seeing evidence of the client's reaction. Machine load widens the
 // windows but cannot make a correct client fall outside.
-func fillAccept(rc *rec, n *Net, cur *attempt, atts map[int]*attempt, dels []delivery, r *inflight, re Reaction) bool {
+func fillAccept(rc *rec, n *Net, cur *attempt, atts map[int]*attempt, dels []delivery, r *inflight, re Reaction, stamp time.Time, stamped bool) bool {
 	var resp ntp.Packet
 	pl, _, err := n.T.Unwrap(r.b)
 	if err != nil || ntp.DecodePacket(&resp, pl) != nil {
@@ -400,6 +459,7 @@ func fillAccept(rc *rec, n *Net, cur *attempt, atts map[int]*attempt, dels []del
 		// (no filter, and the call went on with another attempt)
 		return false
 	}
+	rc.T3s = stamped && T3.Equal(stamp)
 	// client side: the attempt whose send window holds t0, whose delivery window holds t3
 	for _, sl := range []time.Duration{0, slack} {
 		for _, a := range atts {
